@@ -118,6 +118,14 @@ func (r *Run) Violation(replay any, summary string) {
 	os.MkdirAll(dir, 0o755)
 	path := filepath.Join(dir, fmt.Sprintf("%s-%d-%d.json", r.Prop, r.Seed, len(r.violations)))
 	b, _ := json.MarshalIndent(replay, "", " ")
+	// record seed and tier so that drivers without a dedicated replay path can re-run the same exploration
+	var asMap map[string]any
+	if json.Unmarshal(b, &asMap) == nil && asMap != nil {
+		if _, ok := asMap["verif_seed"]; !ok {
+			asMap["verif_seed"], asMap["verif_tier"] = r.Seed, r.Tier
+			b, _ = json.MarshalIndent(asMap, "", " ")
+		}
+	}
 	os.WriteFile(path, b, 0o644)
 	r.violations = append(r.violations, path)
 	if len(r.violations) <= 20 {
